@@ -190,6 +190,20 @@ fn process_modify_event(
                         )
                     })
                 }
+                // One half of a rename whose other half is outside of the watched paths:
+                // something was moved into (To) or out of (From) the project.
+                RenameMode::To if paths.len() == 1 => {
+                    categorize_changed_file_and_filter_changes_in_artifact_directory(
+                        config, &paths[0],
+                    )
+                    .map(|file_kind| (SourceEventKind::CreateOrModify(paths[0].clone()), file_kind))
+                }
+                RenameMode::From if paths.len() == 1 => {
+                    categorize_changed_file_and_filter_changes_in_artifact_directory(
+                        config, &paths[0],
+                    )
+                    .map(|file_kind| (SourceEventKind::Remove(paths[0].clone()), file_kind))
+                }
                 _ => None,
             }
         }
